@@ -21,7 +21,7 @@ ASSUMPTIONS = ["thresholds are the ones the property states: attenuation <= -40 
                ">= 90 % of its high-passed, re-aligned amplitude on its peak channel", "a 'few neighbouring channels' = the 7 nearest sites with a Gaussian footprint of sigma 0.4-0.7 site pitches (retention falls "
                "smoothly with footprint width: measured 0.94-0.97 in that range, 0.89-0.91 at sigma 1.0-1.3, which is no longer 'a few channels')", "grouped filters are compared with per-group calls using default padding on both sides"]
 REQUIRED = {"default_header_checked": 2, "labels_true_checked": 2, "labels_true_with_bad_channels": 2, "stripe_attenuations": 8, "spike_retentions": 8, "outside_checked": 6, "car_zero_reference": 10, "group_equals_separate": 20,
-            "agc_products": 20}
+            "agc_products": 20, "referencing_through_destripe": 16, "settings_through_destripe": 4}
 CASE_TIMEOUT = 120.0
 KINDS = ["3B2", "NP2.1", "NP2.4", "NPultra"]
 
@@ -45,6 +45,7 @@ def gen_cases(seed, tier):
                           "layout": ["middle", "top-with-hole", "scattered", "bottom", "top"][(rep + j) % 5]})
     n = 10 if tier == "quick" else 600
     cases += [{"cls": "groups", "seed": seed * 1000 + j, "n": 4, "_w": 1} for j in range(n)]
+    cases += [{"cls": "through-destripe", "kind": KINDS[j % 4], "seed": seed * 1000 + 300 + j, "_w": 2} for j in range(8 if tier == "quick" else 240)]
     cases += [{"cls": "agc", "seed": seed * 1000 + j, "n": 6, "_w": 1} for j in range(n)]
     return cases
 
@@ -207,6 +208,61 @@ def run_case(case):
             res.check(worst <= -40.0, "destripe:bad-channel-leaks", f"{label}: channel {inside[int(np.argmax(per))]} keeps {worst:.1f} dB of the stripe level after destriping "
                       f"(repaired channels must be rebuilt from good neighbours only)", counter="stripe_attenuations")
             sigs.add((kind, kf, layout))
+        except Exception as e:
+            res.exception("destripe:exception", e, label)
+    elif cls == "through-destripe":
+        # referencing / k-filtering requested THROUGH destripe (k_filter, k_kwargs): the settings must reach the spatial filter.
+        # High-pass and ADC re-alignment act on each channel alone, so every clause about groups carries over unchanged.
+        kind = case["kind"]
+        h = GS.header(kind)
+        ns = int(rng.choice([1500, 2400]))
+        ng = int(rng.integers(2, 5))
+        g = np.sort(rng.integers(0, ng, 384)) if rng.random() < 0.5 else (np.arange(384) % ng)
+        for _k in range(6):
+            vals, cnt = np.unique(g, return_counts=True)
+            if cnt.min() >= 40 or vals.size == 1:
+                break
+            g[g == vals[np.argmin(cnt)]] = vals[np.argmax(cnt)]
+        groups = np.unique(g)
+        x = GS.stripe(rng, ns, fs, h["sample_shift"], 600, 5000, 100e-6) + 30e-6 * rng.standard_normal((384, ns))
+        for c0 in rng.choice(384, 12, replace=False):          # local spikes: mean and median of a group differ at those samples
+            x += GS.local_spike(rng, ns, fs, h, int(c0), t0=int(rng.integers(200, ns - 200)), amp=float(rng.choice([-1, 1])) * 300e-6, width_s=3e-4, sigma_pitch=0.6)[0]
+        labels = None
+        if rng.random() < 0.5:
+            labels = np.zeros(384)
+            labels[384 - int(rng.integers(1, 30)):] = 3
+        inside = np.arange(384) if labels is None else np.flatnonzero(labels != 3)
+        hi = {k: v[inside] for k, v in h.items()}
+        label = f"{kind} groups={[int(np.sum(g == v)) for v in groups]} outside={0 if labels is None else int(np.sum(labels == 3))}"
+        try:
+            for op in ("median", "average"):
+                for coll in (None, g[inside]):
+                    kk = {"operator": op} if coll is None else {"operator": op, "collection": coll}
+                    y = V.destripe(x.copy(), fs, h=h, neuropixel_version=1, k_filter=False, k_kwargs=dict(kk), channel_labels=None if labels is None else labels.copy())
+                    agg = np.median if op == "median" else np.mean
+                    yi = y[inside]
+                    sets = [np.ones(inside.size, bool)] if coll is None else [coll == v for v in groups]
+                    worst = max(np.max(np.abs(agg(yi[m], axis=0))) for m in sets)
+                    res.check(worst <= 1e-9 * np.max(np.abs(x)), f"destripe-car:{op}-not-zero", f"{label}: destripe(k_filter=False, k_kwargs={{operator: {op!r}"
+                              f"{', collection' if coll is not None else ''}}}) leaves a per-group {op} of {worst:.3g} V on the inside-brain channels", counter="referencing_through_destripe")
+            # k-filter settings through destripe: grouped == each group destriped on its own with the same settings
+            lagc = [None, int(rng.integers(40, 400)), 3000][int(rng.integers(0, 3))]
+            bk = {"N": int(rng.integers(2, 4)), "Wn": float(rng.uniform(0.01, 0.2)), "btype": "highpass"}
+            kk = {"ntr_pad": 0, "ntr_tap": 0, "lagc": lagc, "butter_kwargs": bk}
+            y = V.destripe(x[inside].copy(), fs, h=hi, neuropixel_version=1, k_filter=True, k_kwargs=dict(kk, collection=g[inside]))
+            sep = np.zeros_like(y)
+            for v in groups:
+                m = g[inside] == v
+                sep[m] = V.destripe(x[inside][m].copy(), fs, h={k: a[m] for k, a in hi.items()}, neuropixel_version=1, k_filter=True, k_kwargs=dict(kk))
+            e = np.max(np.abs(y - sep)) / np.max(np.abs(sep))
+            res.check(e <= 1e-9, "destripe-kfilt:grouped-differs", f"{label}: destripe(k_kwargs with collection, lagc={lagc}, butter={bk}) differs from destriping each group alone "
+                      f"with the same settings by {e:.3g}", counter="group_equals_separate")
+            # and the settings do reach the filter: the result equals high-pass -> re-alignment -> kfilt(**settings)
+            ref = V.kfilt(F.fshift(hp(x[inside], fs), hi["sample_shift"], axis=1), collection=g[inside], **kk)
+            e = np.max(np.abs(y - ref)) / np.max(np.abs(ref))
+            res.check(e <= 1e-9, "destripe-kfilt:settings-not-forwarded", f"{label}: destripe(k_kwargs=lagc={lagc}, butter={bk}) differs from high-pass, re-alignment and "
+                      f"kfilt with the same settings by {e:.3g}", counter="settings_through_destripe")
+            sigs.add((kind, ng, labels is None))
         except Exception as e:
             res.exception("destripe:exception", e, label)
     elif cls == "groups":
